@@ -8,11 +8,11 @@ use crate::driver::{AnyFlow, ReqCfg};
 use crate::engine::{guarded, Report, Tier, Violation};
 use crate::refmodel::reqvalid::{self, ReqFacts};
 
-pub const RULE: &str = "full product: version {0.9,1.0,1.1,2,3} x 9 methods x Host {none, one, two orig, orig+added, non-textual} x Content-Length {none, 3, 0, two orig, orig+added, -1, abc, non-utf8} x Transfer-Encoding {none, chunked, Chunked, CHUNKED} x despite-method {no,yes} x front end {Flow, Call::without_body, Call::with_body}; plus non-standard method tokens {get, Post, head, PURGE, M-SEARCH, GETX} x versions x Content-Length {none,3} x Transfer-Encoding {none, chunked} x despite x front ends (all refused); plus flows obtained by following a 302 (original POST with Content-Length / GET, inherited Content-Length and Cookie suppressed) x caller-added Host {none, one, two} x caller-added Content-Length {none, 3, 0, two, -1, abc, non-utf8} x Transfer-Encoding x despite; per cell: write(4 KiB sentinel buffer) twice, write(empty buffer), readiness, proceed. distinct = distinct (validity class, front end, outcome) triples";
+pub const RULE: &str = "full product: version {0.9,1.0,1.1,2,3} x 9 methods x Host {none, one, two orig, orig+added, non-textual (invalid UTF-8), non-ASCII but well-formed UTF-8} x Content-Length {none, 3, 0, two orig, orig+added, -1, abc, non-utf8} x Transfer-Encoding {none, chunked, Chunked, CHUNKED} x despite-method {no,yes} x front end {Flow, Call::without_body, Call::with_body}; plus non-standard method tokens {get, Post, head, PURGE, M-SEARCH, GETX} x versions x Content-Length {none,3} x Transfer-Encoding {none, chunked} x despite x front ends (all refused); plus flows obtained by following a 302 (original POST with Content-Length / GET, inherited Content-Length and Cookie suppressed) x caller-added Host {none, one, two} x caller-added Content-Length {none, 3, 0, two, -1, abc, non-utf8} x Transfer-Encoding x despite; every cell with the library's logging off and again at level Trace; per cell: write(4 KiB sentinel buffer) twice, write(empty buffer), readiness, proceed. distinct = distinct (validity class, front end, outcome) triples";
 
 const METHODS: [&str; 9] = ["GET", "HEAD", "POST", "PUT", "DELETE", "CONNECT", "OPTIONS", "TRACE", "PATCH"];
 const VERSIONS: [&str; 5] = ["0.9", "1.0", "1.1", "2", "3"];
-const HOSTS: [&str; 5] = ["none", "one", "two-orig", "orig+added", "non-textual"];
+const HOSTS: [&str; 6] = ["none", "one", "two-orig", "orig+added", "non-textual", "utf8-non-ascii"];
 const CLS: [&str; 8] = ["none", "3", "0", "two-orig", "orig+added", "-1", "abc", "non-utf8"];
 const FRONTS: [&str; 3] = ["flow", "call-without-body", "call-with-body"];
 /// method tokens that are not one of the standard methods (tokens are case-sensitive): refused
@@ -128,6 +128,8 @@ fn cfg_of(c: &Cell) -> ReqCfg {
             r = if call_api { r.orig("host", "h2.test") } else { r.added("host", "h2.test") };
         }
         "non-textual" => r = r.orig_b("host", &[b'h', 0x80, 0xff]),
+        // not ASCII either, but well-formed UTF-8 (an internationalised name as typed)
+        "utf8-non-ascii" => r = r.orig_b("host", b"b\xc3\xbccher.test"),
         _ => {}
     }
     match c.cl {
@@ -336,7 +338,17 @@ fn run_cell(cfg: &ReqCfg, front: &str) -> (Option<(String, String)>, String) {
     )
 }
 
-pub fn run(_tier: Tier) -> Report {
+pub fn run(tier: Tier) -> Report {
+    let mut rep = run_pass(tier);
+    // the same table with the library's logging at level Trace
+    crate::engine::logging(true);
+    let with_log = run_pass(tier);
+    crate::engine::logging(false);
+    rep.merge(with_log);
+    rep
+}
+
+fn run_pass(_tier: Tier) -> Report {
     let cs = cells();
     let reports: Vec<Report> = cs
         .par_chunks(512)
